@@ -481,6 +481,7 @@ def conv_total(s: str, kind: int, nullable: bool) -> bool:
     pre: all(c in CONV_ALPHA for c in s)
     pre: 0 <= kind <= 3
     pre: PART.get("kind") is None or kind == PART["kind"]
+    pre: PART.get("first") is None or s[0] == PART["first"]
     post: _
     """
     kind = _split_small(kind, 4)
@@ -504,6 +505,7 @@ def conv_typed_objects(s: str, kind: int, nullable: bool) -> bool:
     pre: all(c in CONV_ALPHA for c in s)
     pre: 0 <= kind <= 3
     pre: PART.get("kind") is None or kind == PART["kind"]
+    pre: PART.get("first") is None or s[0] == PART["first"]
     post: _
     """
     kind = _split_small(kind, 4)
@@ -564,10 +566,10 @@ def conditions(tier):
         conds.append({"name": "int_roundtrip[%d..%d]" % (lo, hi), "fn": int_roundtrip, "timeout": t, "part": {"lo": lo, "hi": hi}, "bounds": "every int in [%d, %d]" % (lo, hi)})
     conds.append({"name": "bool_forms", "fn": bool_forms, "timeout": t, "bounds": "the ten boolean text forms"})
     for n in range(0, nmax + 1):
-        for kind in ([None] if n < 3 else [0, 1, 2, 3]):
-            tag = "len=%d" % n + ("" if kind is None else ",%s" % ["str", "bool", "int", "float"][kind])
-            conds.append({"name": "conv_total[%s]" % tag, "fn": conv_total, "timeout": t, "part": {"n": n, "kind": kind}, "bounds": "all texts of length %d over {1,-,.,e,n,u,l,i,f,space} x %s x nullable" % (n, "4 types" if kind is None else "one type")})
-            conds.append({"name": "conv_typed_objects[%s]" % tag, "fn": conv_typed_objects, "timeout": t, "part": {"n": n, "kind": kind}, "bounds": "Option.parse / Argument.parse agree with the converter, same texts"})
+        for kind, first in ([(None, None)] if n < 3 else [(k, f) for k in (0, 1, 2, 3) for f in (CONV_ALPHA if k >= 2 else [None])]):
+            tag = "len=%d" % n + ("" if kind is None else ",%s" % ["str", "bool", "int", "float"][kind]) + ("" if first is None else ",first=%r" % first)
+            conds.append({"name": "conv_total[%s]" % tag, "fn": conv_total, "timeout": t, "part": {"n": n, "kind": kind, "first": first}, "bounds": "all texts of length %d over {1,-,.,e,n,u,l,i,f,space} x %s x nullable" % (n, "4 types" if kind is None else "one type")})
+            conds.append({"name": "conv_typed_objects[%s]" % tag, "fn": conv_typed_objects, "timeout": t, "part": {"n": n, "kind": kind, "first": first}, "bounds": "Option.parse / Argument.parse agree with the converter, same texts"})
     conds.append({"name": "float_pinned", "engine": "native", "fn": float_pinned, "timeout": 60, "bounds": "13 pinned floats (concretised; not a solver claim)",
                   "replay": lambda a: "parse_float(repr(%r)) != x" % a["x"]})
     return conds
